@@ -1,0 +1,76 @@
+//go:build verif
+
+package p2p
+
+import (
+	"context"
+
+	pubsub "github.com/libp2p/go-libp2p-pubsub"
+	"github.com/libp2p/go-libp2p/core/peer"
+
+	p2p_pb "github.com/celestiaorg/go-header/p2p/pb"
+)
+
+// Exports for the verification harness in /verif (build tag `verif` only; nothing here is
+// compiled into a normal build).
+
+// VerifVerifyMessage exposes the gossip topic validator.
+func (s *Subscriber[H]) VerifVerifyMessage(
+	ctx context.Context,
+	p peer.ID,
+	msg *pubsub.Message,
+) pubsub.ValidationResult {
+	return s.verifyMessage(ctx, p, msg)
+}
+
+// VerifHandleRangeRequest exposes the server's range handler (from, to as computed by requestHandler).
+func (serv *ExchangeServer[H]) VerifHandleRangeRequest(ctx context.Context, from, to uint64) ([]H, error) {
+	return serv.handleRangeRequest(ctx, from, to)
+}
+
+// VerifHandleRequestByHash exposes the server's hash handler.
+func (serv *ExchangeServer[H]) VerifHandleRequestByHash(ctx context.Context, hash []byte) ([]H, error) {
+	return serv.handleRequestByHash(ctx, hash)
+}
+
+// VerifMinHeadResponses exposes the quorum rule.
+func VerifMinHeadResponses(numPeers int) int { return minHeadResponses(numPeers) }
+
+// VerifMaxUntrustedHeadRequests exposes the number of tracked peers asked for a head.
+func VerifMaxUntrustedHeadRequests() int { return maxUntrustedHeadRequests }
+
+// VerifPrepareRequests exposes the request splitting as (origin, amount) pairs.
+func VerifPrepareRequests(from, amount, headersPerPeer uint64) [][2]uint64 {
+	reqs := prepareRequests(from, amount, headersPerPeer)
+	out := make([][2]uint64, len(reqs))
+	for i, r := range reqs {
+		out[i] = [2]uint64{r.GetOrigin(), r.Amount}
+	}
+	return out
+}
+
+// VerifStatusToError exposes the status code mapping.
+func VerifStatusToError(code int32) error { return convertStatusCodeToError(p2p_pb.StatusCode(code)) }
+
+// VerifSetTrackedPeers replaces the set of tracked (ordinary) peers of the client.
+func (ex *Exchange[H]) VerifSetTrackedPeers(ids ...peer.ID) {
+	ex.peerTracker.peerLk.Lock()
+	defer ex.peerTracker.peerLk.Unlock()
+	for id := range ex.peerTracker.trackedPeers {
+		delete(ex.peerTracker.trackedPeers, id)
+	}
+	for _, id := range ids {
+		ex.peerTracker.trackedPeers[id] = &peerStat{peerID: id, peerScore: defaultScore}
+	}
+}
+
+// VerifTrackedPeers lists the tracked peers.
+func (ex *Exchange[H]) VerifTrackedPeers() []peer.ID {
+	ex.peerTracker.peerLk.RLock()
+	defer ex.peerTracker.peerLk.RUnlock()
+	out := make([]peer.ID, 0, len(ex.peerTracker.trackedPeers))
+	for id := range ex.peerTracker.trackedPeers {
+		out = append(out, id)
+	}
+	return out
+}
